@@ -179,8 +179,11 @@ def gen_program(rng, allow_word, align_mods, base0=0, nst=None):
                 st.size = ((-a) % p[1]) if p[0] == "align" else (1 if a % 2 == 0 else 0)
             a += st.size
         return a
+    many_aligns = bool(align_mods and align_mods[0])
     for _ in range(nst):
         r = rng.random()
+        if many_aligns and rng.random() < 0.12:
+            r = 0.95            # the alignment stream uses its counts often
         if 0.66 <= r < 0.78 and allow_word and addr() % 2 == 1 and not sloppy:
             stmts.append(Stmt("byte", lambda L: ".byte 12", [("fixed", [10])], 1))
         if r < 0.30:
@@ -223,12 +226,14 @@ def gen_program(rng, allow_word, align_mods, base0=0, nst=None):
         elif r < 0.92:
             n = rng.choice([1, 2, 3, 4])
             stmts.append(Stmt("blkb", lambda L, n=n: ".blkb %o" % n, [("fixed", [0] * n)], n))
-        elif align_mods:
-            m = rng.choice(align_mods + [2])
-            if m == 2 and rng.random() < 0.5:
-                stmts.append(Stmt("odd", lambda L: ".odd", [("odd",)], None))
-            elif m == 2:
-                stmts.append(Stmt("even", lambda L: ".even", [("align", 2)], None))
+        elif align_mods and (align_mods[0] or align_mods[1]):
+            counts, parity_ok = align_mods
+            m = rng.choice(counts + ([2, 2] if parity_ok else []))
+            if m == 2 and parity_ok and rng.random() < 0.7:
+                if rng.random() < 0.5:
+                    stmts.append(Stmt("odd", lambda L: ".odd", [("odd",)], None))
+                else:
+                    stmts.append(Stmt("even", lambda L: ".even", [("align", 2)], None))
             else:
                 stmts.append(Stmt("align", lambda L, m=m: ".align %o" % m, [("align", m)], None))
         else:
@@ -339,15 +344,42 @@ def gen_bases(rng, total):
     return bs
 
 
+def congruent_bases(rng, L):
+    """three bases congruent modulo L that differ in their low bits (516 and 1032 for L = 6)"""
+    b0 = rng.choice([0, L, rng.randrange(0, L), rng.randrange(0, 0o2000)]) % L if L > 0o2000 else rng.choice([0, L, 2 * L, rng.randrange(0, 3 * L), rng.randrange(0, 0o2000)])
+    kmax = (65535 - b0) // L          # every base is a 16-bit address
+    ks = set()
+    while len(ks) < 3:
+        ks.add(rng.choice([rng.randrange(0, min(40, kmax) + 1), rng.randrange(0, kmax + 1)]))
+    return [b0 + k * L for k in sorted(ks, key=lambda _: rng.random())]
+
+
 def make_case(rng):
     stmts0, labpos = gen_program(rng, True, [])   # provisional, only to size the triple
     total_guess = sum(s.size or 1 for s in stmts0)
-    bases = gen_bases(rng, total_guess)
+    if rng.random() < 0.3:
+        # the alignment stream: 1-3 counts anywhere in 1..40 (mostly not powers of two) and bases congruent modulo
+        # their lcm -- the hypothesis under which the law speaks about `.align`
+        counts = [rng.choice([3, 5, 6, 7, 9, 10, 12, 20, 24, 36, 40] + list(range(1, 41))) for _ in range(rng.choice([1, 1, 2, 3]))]
+        L = 1
+        for c in counts:
+            L = L * c // math.gcd(L, c)
+        if L > 20000:
+            counts, L = counts[:1], counts[0]
+        if L % 2 and rng.random() < 0.5:
+            L *= 2          # so that .even/.odd/.word may be mixed in
+        bases = congruent_bases(rng, L)
+        mods = counts + [m for m in range(1, 41) if L % m == 0 and rng.random() < 0.2]
+    else:
+        bases = gen_bases(rng, total_guess)
+        mods = None
     g = math.gcd(bases[1] - bases[0], bases[2] - bases[0])
     same_parity = g % 2 == 0
-    mods = [m for m in (2, 4, 8) if g % m == 0]
+    if mods is None:
+        mods = [m for m in range(2, 41) if g % m == 0] if rng.random() < 0.5 else []
+        mods = rng.sample(mods, min(3, len(mods)))
     allow_word = same_parity or rng.random() < 0.2
-    stmts, labpos = gen_program(rng, allow_word, mods if rng.random() < 0.5 else [], bases[0])
+    stmts, labpos = gen_program(rng, allow_word, (mods, same_parity), bases[0])
     body, items, aw, total, nfield = finish_program(rng, stmts, labpos, bases[0])
     return {"bases": bases, "body": body, "items": items, "aw": aw, "nfield": nfield, "total": total,
             "last": [rng.random() < 0.5 for _ in bases], "kinds": sorted({s.kind for s in stmts})}
